@@ -12,6 +12,50 @@ CHECKERS = ['CTL', 'LTL', 'CTLS']
 NAMINGS = ['int', 'str', 'tuple', 'mixed']
 
 
+class Pristine(object):
+    """Client of vp/pristine.py (one server per harness process, started lazily)."""
+    _inst = None
+
+    def __init__(self):
+        import atexit
+        import os
+        import subprocess
+        import sys
+        env = dict(os.environ, PYTHONHASHSEED='0', PYTHONDONTWRITEBYTECODE='1', PYTHONPATH=core.VERIF,
+                   VERIF_REPO=core.REPO)
+        self.p = subprocess.Popen([sys.executable, '-m', 'vp.pristine'], cwd=core.VERIF, env=env,
+                                  stdin=subprocess.PIPE, stdout=subprocess.PIPE, text=True, bufsize=1)
+        atexit.register(self.close)
+
+    @classmethod
+    def get(cls):
+        if cls._inst is None:
+            cls._inst = Pristine()
+        return cls._inst
+
+    def ask(self, req):
+        import json
+        try:
+            self.p.stdin.write(json.dumps(req) + '\n')
+            self.p.stdin.flush()
+            line = self.p.stdout.readline()
+        except Exception as e:
+            raise core.HarnessError('pristine server unreachable: %s' % e)
+        if not line:
+            raise core.HarnessError('pristine server died')
+        ans = json.loads(line)
+        if ans and ans[0] == 'harness':
+            raise core.HarnessError('pristine child failed: %r' % (ans,))
+        return ans
+
+    def close(self):
+        try:
+            self.p.stdin.close()
+            self.p.terminate()
+        except Exception:
+            pass
+
+
 class World(object):
     def __init__(self):
         self.structs = []     # [kripke, snapshot, K, naming]
@@ -33,7 +77,7 @@ class World(object):
         if kind == 'K':
             _, K, naming, how = op
             kripke = km.to_lib(K, naming, how)
-            self.structs.append([kripke, km.snapshot(kripke), K, naming])
+            self.structs.append([kripke, km.snapshot(kripke), K, naming, how])
         elif kind == 'F':
             _, objlang, t = op
             t = fm.from_json(t)
@@ -69,7 +113,7 @@ class World(object):
         return None
 
     def _check(self, i, j, k, as_text, checker, clone):
-        kripke, snap, K, naming = self.structs[i]
+        kripke, snap, K, naming, how_ = self.structs[i]
         obj, t, printed, objlang = self.forms[j]
         F = self.fairs[k]
         L = fm.lang(checker)
@@ -97,6 +141,25 @@ class World(object):
             self.last = None
         key = (i, j, checker, k, as_text)
         problem = None
+        # the same query in a process without history (fresh fork of a pristine interpreter)
+        nm = graphs.NAMINGS[naming]
+        back = dict((nm(s), s) for s in range(K['n']))
+        if outcome[0] == 'set':
+            try:
+                mine = ['set', sorted(back[s] for s in outcome[1])]
+            except (KeyError, TypeError):
+                mine = ['other', 'foreign element']
+        elif outcome[0] == 'exc':
+            mine = ['exc', outcome[1]]
+        else:
+            mine = ['other', outcome[1]]
+        pure = Pristine.get().ask({'K': K, 'naming': naming, 'how': self.structs[i][4], 'f': t, 'objlang': objlang,
+                                   'as_text': as_text, 'checker': checker, 'F': F, 'clone': clone})
+        self._bump('compared with a process without history')
+        if pure != mine:
+            return ('%s.modelcheck(structure #%d, formula #%d %r%s) answers %s after this call history but %s '
+                    'in a fresh process: the result does not depend on the arguments only'
+                    % (checker, i, j, printed, ', F=%r' % (F,) if F is not None else '', mine, pure))
         if key in self.memo:
             if any(c != i for c in self.calls[self.memo[key][1]:]):
                 self.flags.add('repeated call with calls on other structures in between')
@@ -115,7 +178,7 @@ class World(object):
         return problem
 
     def check(self):
-        for idx, (kripke, snap, K, naming) in enumerate(self.structs):
+        for idx, (kripke, snap, K, naming, how_) in enumerate(self.structs):
             d = km.snapshot_diff(snap, km.snapshot(kripke))
             if d:
                 return 'structure #%d was modified: %s' % (idx, d)
@@ -333,7 +396,9 @@ def run(ctx):
                 'clone-and-check, repeat an earlier call (directly or on a clone), mutate the last returned set.  Exceptions are outcomes.  '
                 'Invariant after every rule: every structure equals its deep snapshot (states, '
                 'transitions, contents AND identity of every label and successor set, S0), every '
-                'formula has the same tree and print; every repeated (structure, formula, checker, '
+                'formula has the same tree and print; every call is ALSO made in a freshly forked child of an '
+                'interpreter that has never called the library (no history) and must give the same outcome; '
+                'every repeated (structure, formula, checker, '
                 'F, text?) call reproduces the memoised outcome, also on a clone.  evaluations = '
                 'invariant evaluations; a machine is non-trivial if it repeated a call with calls '
                 'on other structures in between AND made a call with F or a CTL* call with nested '
